@@ -1,7 +1,6 @@
 SPECIFICATION Spec
 CONSTANTS Threads = {"W", "R"}
-  Order = "snapshot-first"
-  ReleaseAt = "after-publish"
+  Order = "lock-first"
+  ReleaseAt = "before-publish"
   History = FALSE
 INVARIANT NoLostUpdate
-PROPERTY EventuallyDone
